@@ -218,6 +218,10 @@ def run_static(ctx, st, pt, p: Pep):
         ctx.inconclusive_case('monitor not reached')
         return
     ctx.decided()
+    if isinstance(res, str) != (rt == 'str'):
+        ctx.violation('return-type-differs-from-request', {'case': {k: v for k, v in case.items() if k != 'pep'},
+                                                           'returned': type(res).__name__})
+        return
     a = pt.parse(res) if isinstance(res, str) else res
     exp = static_expected(p, rules, ngroups, cgroups, mode)
     d = rp.diff_fields(exp, rp.observed_fields(a))
@@ -227,8 +231,18 @@ def run_static(ctx, st, pt, p: Pep):
     elif mode == 'skip':
         # applying it again in skip mode changes nothing more
         ctx.decided()
-        again = pt.apply_static_mods(a.serialize(), copy.deepcopy(rules) or None, copy.deepcopy(nspec),
-                                     copy.deepcopy(cspec), 'skip', 'annotation')
+        try:
+            again = pt.apply_static_mods(a.serialize(), copy.deepcopy(rules) or None, copy.deepcopy(nspec),
+                                         copy.deepcopy(cspec), 'skip', 'annotation')
+        except Exception as ex:
+            ctx.violation('apply_static_mods-raises', {'case': {k: v for k, v in case.items() if k != 'pep'},
+                                                       'second_application': True,
+                                                       'exception': f'{type(ex).__name__}: {ex}'[:300]})
+            return
+        if isinstance(again, str):
+            ctx.violation('return-type-differs-from-request', {'case': {k: v for k, v in case.items() if k != 'pep'},
+                                                               'second_application': True, 'returned': 'str'})
+            return
         if rp.observed_fields(again) != rp.observed_fields(a):
             ctx.violation('second-skip-application-changes-result', {'case': {k: v for k, v in case.items() if k != 'pep'},
                                                                      'first': a.serialize(), 'second': again.serialize()})
